@@ -372,3 +372,134 @@ Proof.
       * intros H. split; [apply Hs; exact H|exact Hf].
       * cbn [app] in A'. unfold pairs at 1 2 in A'. cbn [map app] in A'. rewrite sel_abs. exact A'.
 Qed.
+
+(* ------------------------------------------------------------------ a_que_die_ *)
+Lemma size_up8_ge n : n <= size_up8 n.
+Proof.
+  unfold size_up8. pose proof (N.div_mod (n + 7) 8 ltac:(lia)) as H.
+  pose proof (N.mod_lt (n + 7) 8 ltac:(lia)). lia.
+Qed.
+
+Lemma die_spec w X s n :
+  QInv w X -> In n (sel s X) ->
+  exists w1 rc, q_die_ w s n = Ok (w1, rc) /\ trace_ok w w1 /\
+    ((rc = 4%Z /\ same_core w w1 /\ failed w1 = true) \/
+     (rc = 0%Z /\ w_h w1 = w_h w /\ w_val w1 = w_val w /\ w_fresh w1 = w_fresh w /\
+      getq w1 (negb s) = getq w (negb s) /\ q_pool (getq w1 s) = n :: q_pool (getq w s) /\
+      q_num (getq w1 s) = q_num (getq w s) - 1 /\
+      N.of_nat (length (n :: q_pool (getq w s))) <= q_mem (getq w1 s))).
+Proof.
+  intros I Hin. unfold q_die_.
+  assert (Hn3 : 3 <= n) by (eapply QInv_node_ge3; eauto; eapply allnodes_sel; eauto).
+  replace (N.eqb n 0) with false by (symmetry; apply N.eqb_neq; lia).
+  pose proof (qi_mem _ _ I s) as M.
+  destruct (N.leb (q_mem (getq w s)) (N.of_nat (length (q_pool (getq w s))))) eqn:Hle.
+  - apply N.leb_le in Hle.
+    set (mem := size_up8 (q_mem (getq w s) + N.div2 (q_mem (getq w s)) + 1)).
+    assert (Hmem : N.of_nat (length (q_pool (getq w s))) < mem).
+    { pose proof (size_up8_ge (q_mem (getq w s) + N.div2 (q_mem (getq w s)) + 1)) as H. fold mem in H.
+      clearbody mem. set (d := N.div2 (q_mem (getq w s))) in *. clearbody d. lia. }
+    pose proof (ask_spec w (RPool (8 * mem))) as A.
+    destruct (ask w (RPool (8 * mem))) as [w1 ok].
+    destruct A as (Hh & Hv & Hf & Ha & Hb & Ht & Hs).
+    destruct ok.
+    + replace (N.ltb (N.of_nat (length (q_pool (getq w s)))) mem) with true by (symmetry; apply N.ltb_lt; exact Hmem).
+      eexists _, _. split; [reflexivity|]. split.
+      * intros H. destruct (Hs H) as [_ H1]. split.
+        -- unfold no_fault. destruct s; simpl; exact H1.
+        -- unfold failed. destruct s; simpl; rewrite Ht; reflexivity.
+      * right. split; [reflexivity|]. rewrite getq_setq_same, getq_setq_other. cbn [q_pool q_num q_mem].
+        split; [destruct s; simpl; congruence|]. split; [destruct s; simpl; congruence|].
+        split; [destruct s; simpl; congruence|].
+        split; [destruct s; simpl; unfold getq; simpl; congruence|].
+        split; [reflexivity|]. split; [reflexivity|]. simpl length. lia.
+    + exists w1, 4%Z. split; [reflexivity|]. split.
+      * intros H. destruct (Hs H). discriminate.
+      * left. split; [reflexivity|]. split; [unfold same_core; auto|]. unfold failed. rewrite Ht. reflexivity.
+  - apply N.leb_gt in Hle.
+    eexists _, _. split; [reflexivity|]. split.
+    + intros H. split; [unfold no_fault; destruct s; simpl; exact H|unfold failed; destruct s; reflexivity].
+    + right. split; [reflexivity|]. rewrite getq_setq_same, getq_setq_other. cbn [q_pool q_num q_mem].
+      split; [destruct s; reflexivity|]. split; [destruct s; reflexivity|].
+      split; [destruct s; reflexivity|]. split; [reflexivity|].
+      split; [reflexivity|]. split; [reflexivity|]. simpl length. lia.
+Qed.
+
+(* ------------------------------------------------------------------ a node is taken out *)
+Lemma remove_master w X s w1 n h' l1 l2 :
+  QInv w X -> sel s X = l1 ++ n :: l2 ->
+  w_h w1 = w_h w -> w_val w1 = w_val w -> w_fresh w1 = w_fresh w ->
+  getq w1 (negb s) = getq w (negb s) -> q_pool (getq w1 s) = n :: q_pool (getq w s) ->
+  q_num (getq w1 s) = q_num (getq w s) - 1 ->
+  N.of_nat (length (n :: q_pool (getq w s))) <= q_mem (getq w1 s) ->
+  Ring h' (qaddr s :: l1 ++ l2) -> Frame (w_h w) h' (qaddr s :: sel s X) -> (forall x, live h' x <-> live (w_h w) x) ->
+  QInv (seth w1 h') (upd s (l1 ++ l2) X) /\
+  abs (seth w1 h') (upd s (l1 ++ l2) X) = upd s (pairs w l1 ++ pairs w l2) (abs w X).
+Proof.
+  intros I Hsel Hh Hv Hf Hqo Hpool Hnum Hmem R F Lv.
+  set (w' := seth w1 h').
+  assert (Hh' : w_h w' = h') by reflexivity.
+  assert (Hv' : w_val w' = w_val w) by (unfold w'; simpl; exact Hv).
+  assert (Hf' : w_fresh w' = w_fresh w) by (unfold w'; simpl; exact Hf).
+  assert (Hq : forall t, getq w' t = getq w1 t) by (intros []; reflexivity).
+  assert (Hperm : Permutation (allnodes w' (upd s (l1 ++ l2) X)) (allnodes w X)).
+  { unfold allnodes, pools.
+    assert (Ea : w_qa w' = w_qa w1) by reflexivity. assert (Eb : w_qb w' = w_qb w1) by reflexivity.
+    rewrite Ea, Eb. destruct s; simpl in *; unfold getq in *; simpl in *; rewrite ?Hqo, ?Hpool, ?Hsel; perm_app. }
+  split.
+  - constructor; rewrite ?Hh', ?Hv', ?Hf'.
+    + intros t. destruct (bool_cases s t) as [->| ->].
+      * rewrite sel_upd_same. exact R.
+      * rewrite sel_upd_other. eapply Ring_Frame; [apply (qi_ring _ _ I)|exact F|].
+        intros x Hx Hin. revert Hx. replace s with (negb (negb s)) in Hin by apply negb_involutive.
+        intros Hx. eapply QInv_rings_disj; eauto.
+    + eapply Permutation_NoDup; [symmetry; exact Hperm|apply (qi_nodup _ _ I)].
+    + intros x Hx. eapply Permutation_in in Hx; [|exact Hperm].
+      pose proof (qi_node _ _ I x Hx) as (B & L & V). split; [exact B|]. split; [apply Lv; exact L|exact V].
+    + intros t. rewrite Hq. destruct (bool_cases s t) as [->| ->].
+      * rewrite sel_upd_same, Hnum, (qi_num _ _ I s), Hsel, !app_length. simpl. lia.
+      * rewrite sel_upd_other, Hqo. apply (qi_num _ _ I).
+    + intros t. rewrite Hq. destruct (bool_cases s t) as [->| ->].
+      * rewrite Hpool. exact Hmem.
+      * rewrite Hqo. apply (qi_mem _ _ I).
+    + rewrite (Permutation_length Hperm). apply (qi_fresh _ _ I).
+  - rewrite abs_upd, pairs_app.
+    assert (Hval : forall x, val w' x = val w x) by (intros x; unfold val; rewrite Hv'; reflexivity).
+    rewrite (pairs_ext w w' l1), (pairs_ext w w' l2) by (intros; apply Hval).
+    assert (Habs : abs w' X = abs w X) by (unfold abs; f_equal; apply pairs_ext; intros; apply Hval).
+    rewrite Habs. reflexivity.
+Qed.
+
+(* a_que_die_ then a_list_del_node then a_list_dtor, on the node at position |l1| *)
+Lemma take_ok w X s l1 n l2 :
+  QInv w X -> sel s X = l1 ++ n :: l2 ->
+  exists w' r, q_take w s n = Ok (w', r) /\ trace_ok w w' /\
+    ((r = 0 /\ QInv w' X /\ abs w' X = abs w X /\ failed w' = true) \/
+     (r = n /\ QInv w' (upd s (l1 ++ l2) X) /\
+      abs w' (upd s (l1 ++ l2) X) = upd s (pairs w l1 ++ pairs w l2) (abs w X))).
+Proof.
+  intros I Hsel. unfold q_take.
+  assert (Hin : In n (sel s X)) by (rewrite Hsel; apply in_or_app; right; left; reflexivity).
+  destruct (die_spec w X s n I Hin) as (w1 & rc & E & T & [(Hrc & Hc & Hf)|(Hrc & Hh & Hv & Hf & Hqo & Hp & Hnum & Hmem)]);
+    rewrite E; subst rc; cbn [Z.eqb].
+  - exists w1, 0. split; [reflexivity|]. split; [exact T|]. left.
+    split; [reflexivity|]. split; [eapply same_core_QInv; eauto|]. split; [apply same_core_abs; auto|exact Hf].
+  - pose proof (qi_ring _ _ I s) as R. rewrite Hsel in R.
+    destruct (del_node_spec (w_h w) (qaddr s :: l1) n l2 R) as (h1 & E1 & R1 & D1 & F1 & L1); [discriminate|].
+    rewrite Hh, E1. cbn [lift].
+    assert (Ln : live h1 n) by (apply L1; eapply Ring_live; eauto; right; apply in_or_app; right; left; reflexivity).
+    destruct (init_ring h1 n Ln) as (h2 & E2 & R2 & F2 & L2). rewrite E2. cbn [lift].
+    exists (seth w1 h2), n. split; [reflexivity|]. split.
+    + intros H. destruct (T H) as [H1 H2]. split; [exact H1|exact H2].
+    + right. split; [reflexivity|].
+      assert (Hnn : ~ In n ((qaddr s :: l1) ++ l2)).
+      { apply Ring_NoDup in R. apply NoDup_remove_2 in R. exact R. }
+      apply (remove_master w X s w1 n h2 l1 l2); auto.
+      * eapply Ring_Frame; [exact R1|exact F2|]. intros x Hx [<-|[]]. exact (Hnn Hx).
+      * eapply Frame_incl; [eapply Frame_trans; eauto|]. rewrite Hsel.
+        intros x Hx. apply in_app_or in Hx. destruct Hx as [Hx|[<-|[]]].
+        -- change (qaddr s :: l1 ++ n :: l2) with ((qaddr s :: l1) ++ n :: l2).
+           apply in_app_or in Hx. apply in_or_app. simpl. tauto.
+        -- right. apply in_or_app. right. left. reflexivity.
+      * intros x. rewrite L2. apply L1.
+Qed.
